@@ -381,6 +381,25 @@ theorem frameRows_ok_cover (raw : Raw α) (rows : List (Row α)) (h : Impl.frame
     exact ⟨p.2, by have : p.1 = a := by omega
                    rw [← this]; exact hp⟩
 
+theorem framesLines_error (fmt : ℕ → α → String) (ndim : ℕ) (frames : List (Raw α)) (raw : Raw α) (e : String)
+    (hm : raw ∈ frames) (he : Impl.frameRows raw = .error e) :
+    Impl.framesLines fmt ndim frames = .error "neighbor list not sorted" := by
+  induction frames with
+  | nil => simp at hm
+  | cons r rest ih =>
+    rw [Impl.framesLines]
+    cases hr : Impl.frameRows r with
+    | error e' =>
+      have : e' = "neighbor list not sorted" := by
+        unfold Impl.frameRows at hr
+        exact walk_error _ _ _ _ _ _ _ _ hr
+      simp [this]
+    | ok rows =>
+      simp only
+      rcases List.mem_cons.mp hm with h | h
+      · subst h; rw [hr] at he; simp at he
+      · rw [ih h]
+
 end Walk
 
 /-! ## what is written: relation and bonds -/
@@ -426,6 +445,21 @@ theorem neighborFrame_line (raw : Raw α) (N i : ℕ) (hi : i < N) :
   congr 1
   rw [List.getD_eq_getElem?_getD, List.getElem?_map, List.getElem?_map, List.getElem?_range hi]
   rfl
+
+/-- line `i+1` of any rendered token frame -/
+theorem renderTok_line (hdr : Line) (N i : ℕ) (hi : i < N) (f : ℕ → List String) :
+    (renderTok hdr ((List.range N).map f)).getD (i + 1) [] = rowLine i (f i) := by
+  unfold renderTok
+  rw [List.getD_cons_succ]
+  have := getD_renderRows 0 ((List.range N).map f) [] i (by simpa using hi)
+  rw [List.append_nil, Nat.zero_add] at this
+  rw [this]
+  congr 1
+  rw [List.getD_eq_getElem?_getD, List.getElem?_map, List.getElem?_range hi]
+  rfl
+
+theorem length_renderTok (hdr : Line) (fr : List (List String)) : (renderTok hdr fr).length = fr.length + 1 := by
+  simp [renderTok, length_renderRows]
 
 theorem fileRel_neighborFrame (raw : Raw α) (N i j : ℕ) (hi : i < N) :
     fileRel (Spec.neighborFrame raw N) i j ↔ (i, j) ∈ raw.nlist := by
